@@ -228,9 +228,12 @@ def judge(ctx, s, corpus):
     rep = {"corpus": corpus, "suggestion": {k: s.get(k) for k in ("checker", "text", "file", "line", "kind", "from", "to", "repl", "flagged", "category",
                                                                   "parseErr", "typeErr", "typeBefore", "typeAfter", "markersLost")}}
     if chk == "commentFormatting" and kind == "fix":
-        want = "// " + s["flagged"][2:]
-        if s["repl"] != want:
-            ctx.fail("CommentFixDamaged commentFormatting", "the fix for the comment `%s` (%s) is `%s`, not `%s`" % (short(s["flagged"], 60), where, short(s["repl"], 60), short(want, 60)), rep)
+        # the diagnostic is about spacing: the fixed comment is still a line comment and keeps every non-blank character in order
+        def ink(t):
+            return "".join(t.split())
+        if not s["repl"].startswith("//") or ink(s["repl"]) != ink(s["flagged"]):
+            ctx.fail("CommentFixDamaged commentFormatting", "the fix for the comment `%s` (%s) is `%s`: it changes more than the spacing"
+                     % (short(s["flagged"], 60), where, short(s["repl"], 60)), rep)
         return
     if kind == "fix" and s["located"] and not s.get("posInRange", True):
         ctx.fail("FixElsewhere %s" % chk, "%s reports `%s` at %s but its fix replaces `%s` (bytes %d-%d), which does not contain the reported position"
@@ -333,10 +336,9 @@ def comments(ctx, stats):
             mm = re.match(r"^(\d+)-(\d+) (\".*\")$", f, re.S)
             a, b, text = int(mm.group(1)), int(mm.group(2)), json.loads(mm.group(3))
             edits += 1
-            want = "// " + src[a:b][2:]
-            if text != want:
-                ctx.fail("CommentFixDamaged commentFormatting", "through the analysis driver the edit for `%s` (%s) is `%s`, not `%s`"
-                         % (short(src[a:b], 60), os.path.basename(fn), short(text, 60), short(want, 60)), {"file": fn, "from": a, "to": b, "newText": text, "want": want})
+            if not text.startswith("//") or "".join(text.split()) != "".join(src[a:b].split()):
+                ctx.fail("CommentFixDamaged commentFormatting", "through the analysis driver the edit for `%s` (%s) is `%s`: it changes more than the spacing"
+                         % (short(src[a:b], 60), os.path.basename(fn), short(text, 60)), {"file": fn, "from": a, "to": b, "newText": text})
     if edits < 12:
         raise vlib.Infra("the analysis driver returned only %d comment edits" % edits)
     stats["driver_edits"] += edits
